@@ -53,7 +53,15 @@ func runSolver(ctx context.Context, s solverSpec, file string, timeout time.Dura
 	_ = cmd.Run()
 	secs = time.Since(start).Seconds()
 	out = buf.String()
-	first := strings.TrimSpace(strings.SplitN(out, "\n", 2)[0])
+	first := ""
+	for _, l := range strings.Split(out, "\n") {
+		l = strings.TrimSpace(l)
+		if l == "" || strings.HasPrefix(l, "WARNING") || strings.HasPrefix(l, "(warning") {
+			continue // e.g. a pattern the solver refuses; it then picks its own
+		}
+		first = l
+		break
+	}
 	switch first {
 	case "unsat", "sat", "unknown":
 		answer = first
